@@ -1,5 +1,7 @@
 import Rdm.Ops.Codec
 import Rdm.Generated.Facts
+import Rdm.Model.Pipeline
+import Rdm.Spec.C08
 namespace Rdm.Ops
 open Rdm
 
@@ -39,8 +41,46 @@ def opListenerMerge (args : List SExp) : R SExp := do
     pure (encR (mergeParams mp (← decAddition a)) encMParams)
   | _ => throw "listener-merge: arity"
 
+/-- request bias entry `(name disabled prob|none)` -/
+def decBiasReq {α} [Num α] (e : SExp) : R (BiasReq α Unit) := do
+  match e with
+  | .list [n, d, .atom "none"] => pure ⟨← n.asStr, ← d.asBool, none, ()⟩
+  | .list [n, d, p] => pure ⟨← n.asStr, ← d.asBool, some (← p.asNum), ()⟩
+  | _ => throw s!"bad bias request {e}"
+
+/-- `(process-biases (avail...) ((name disabled prob|none)...) (draws...))` with stub biases that
+    never fail and report their own name: → `(ok ((name prob fired)...) (applied-names...))` | `(err)` -/
+def opProcessBiases (args : List SExp) : R SExp := do
+  match args with
+  | [av, reqs, ds] =>
+    let reqs : List (BiasReq Float Unit) ← reqs.mapList decBiasReq
+    let ds : List Float ← decNums ds
+    let apply := fun (name : String) (_ : Unit) (_ : List String) (cur : List String) =>
+      (pure (cur ++ [name], name) : R (List String × String))
+    let r := do
+      let chosen ← chooseBiases (← decStrs av) reqs
+      if chosen.isEmpty then pure ([], [])
+      else processBiases apply chosen [] ds
+    pure (encR r fun (st, outs) =>
+      .list [.list (outs.map fun o => .list [SExp.str o.name, SExp.num o.prob, SExp.bool o.report.isSome]), encStrs st])
+  | _ => throw "process-biases: arity"
+
+/-- `(check-c08 ((name disabled prob|none)...) ((name prob fired)...) (draws...))` -/
+def opCheckC08 (args : List SExp) : R SExp := do
+  match args with
+  | [reqs, outs, ds] =>
+    let reqs : List (BiasReq Rat Unit) ← reqs.mapList decBiasReq
+    let outs ← outs.mapList fun e => do
+      match e with
+      | .list [n, p, f] => pure ((← n.asStr), ((← p.asNum : Rat), (← f.asBool)))
+      | _ => throw "bad bias output"
+    let ds : List Rat ← decNums ds
+    pure (.atom (Spec.C08.explain (reqs.map fun r => (r.name, r.disabled, r.prob)) outs ds))
+  | _ => throw "check-c08: arity"
+
 def pipelineOps : List (String × (List SExp → R SExp)) :=
   [("listener-rank", opListenerRank), ("listener-removed", opListenerRemoved),
-   ("listener-added", opListenerAdded), ("listener-merge", opListenerMerge)]
+   ("listener-added", opListenerAdded), ("listener-merge", opListenerMerge),
+   ("process-biases", opProcessBiases), ("check-c08", opCheckC08)]
 
 end Rdm.Ops
